@@ -138,7 +138,10 @@ def choose_classes(ctx, classes, per_shape):
         refs = [c for c in rest if c["types"] == "refs"]
         if refs and (per_shape >= 3 or ctx.rng.random() < 0.5):    # thorough: always a refs class; quick: every other shape
             rest = refs[:1] + [c for c in rest if c is not refs[0]]
-        pick = ints[:1] + rest[:max(0, per_shape - 1)]
+        extra = per_shape - 1
+        if per_shape == 2 and ctx.rng.random() < 0.5:
+            extra = 0                      # quick: a second class on every other shape only (seed-rotated)
+        pick = ints[:1] + rest[:max(0, extra)]
         chosen[sk] = pick
     if per_shape is not None:
         # every name set and every type set at least once on a WIDEST shape (3 parameters, 3 results: every parameter and
@@ -229,12 +232,15 @@ def in_package(c):
 MULTI_ORDER = [(0, False, False), (1, True, False), (2, False, True), (3, True, True)]
 
 
+MULTI_SHAPES = None      # set by run(): None = every shape (thorough), else a seed-rotated set of shape keys (quick)
+
+
 def multi_classes(live):
     """one class per shape (the first exported-method class of the shape) is mocked in the multi-mock files"""
     seen, out = set(), []
     for cid, c in live.items():
         sk = shape_key(c["shape"])
-        if not in_package(c) and sk not in seen:
+        if not in_package(c) and sk not in seen and (MULTI_SHAPES is None or sk in MULTI_SHAPES):
             seen.add(sk)
             out.append(cid)
     return out
@@ -530,6 +536,8 @@ def run(ctx):
         else:
             only = None
     all_shapes = list(shapes)
+    global MULTI_SHAPES
+    MULTI_SHAPES = None if thorough or only else set(ctx.rng.sample([sk for sk, _ in shapes], 8))
     deep = [s for _, s in shapes]
     if only:
         deep = [only[0]["shape"]]
@@ -594,7 +602,7 @@ def run(ctx):
     per_key = {}
     all_traces = []
     hang = None
-    n_sample_target = 6000 if thorough else 1500
+    n_sample_target = 6000 if thorough else 1000
     for ci, opts in enumerate(chunks):
         exports[ci][0].join()
         if exports[ci][1].get("timeout") or "r" not in exports[ci][1]:
